@@ -148,7 +148,7 @@ func init() {
 			maxN = 7
 		}
 		c.Exhaust = true
-		c.Rule = fmt.Sprintf("every vector in ({matched,unmatched}x{allow,deny,other})^n for n=0..%d under each of the five effect expressions plus one unsupported expression, through the real Enforce and EnforceEx; non-trivial = at least one matched rule; distinct by (effect, vector)", maxN)
+		c.Rule = fmt.Sprintf("every vector in ({matched,unmatched}x{allow,deny,other})^n for n=0..%d under each of the five effect expressions plus one unsupported expression, through the real Enforce and EnforceEx; non-trivial = at least one matched rule; distinct by (effect, vector) Each vector up to n=4 (all in the thorough tier) is also run through a second policy type p2 selected by an EnforceContext while p holds matching decoy rules (decision and explanation must come from p2).", maxN)
 		for ef := range c02Effects {
 			for n := 0; n <= maxN; n++ {
 				vec := make([]int, n)
